@@ -368,6 +368,19 @@ int MPI_Group_free(MPI_Group* g) { *g = MPI_GROUP_NULL; return MPI_SUCCESS; }
 // ---- virtual OpenMP team: the bodies of the team members run one after another in the configured order -----------------
 void GOMP_parallel(void (*fn)(void*), void* data, unsigned nthreads, unsigned) {
     int T = (G ? G->cfg.omp_threads : 1); if (nthreads) T = std::min<int>(T, nthreads); if (T < 1) T = 1; int ord = G ? G->cfg.omp_order : 0;
+    if (getenv("VMPI_TRACE")) fprintf(stderr, "  GOMP_parallel: team of %d (requested %u), free=%d\n", T, nthreads, G ? (int)G->cfg.omp_free : -1);
+    if (G && G->cfg.omp_free && T > 1) {     // free-running team: real concurrency, visible to ThreadSanitizer through pthread_create/join
+        // all members wait at a start gate so that their bodies really overlap in time (an unsynchronised scratch then also corrupts values)
+        struct Arg { void (*fn)(void*); void* data; int tid, n, rank; int* gate; }; std::vector<Arg> args(T); std::vector<pthread_t> th(T); int gate = 0;
+        for (int k = 0; k < T; ++k) { args[k].fn = fn; args[k].data = data; args[k].tid = k; args[k].n = T; args[k].rank = tl_rank; args[k].gate = &gate; }
+        auto body = [](Arg* x) { __atomic_add_fetch(x->gate, 1, __ATOMIC_RELAXED); long spins = 0; while (__atomic_load_n(x->gate, __ATOMIC_RELAXED) < x->n && ++spins < 2000000) { } x->fn(x->data); };
+        auto tramp = [](void* a) -> void* { Arg* x = (Arg*)a; tl_rank = x->rank; tl_omp_tid = x->tid; tl_omp_nth = x->n; __atomic_add_fetch(x->gate, 1, __ATOMIC_RELAXED); long spins = 0; while (__atomic_load_n(x->gate, __ATOMIC_RELAXED) < x->n && ++spins < 2000000) { } x->fn(x->data); return 0; };
+        (void)body;
+        for (int k = 1; k < T; ++k) pthread_create(&th[k], 0, tramp, &args[k]);
+        int st = tl_omp_tid, sn = tl_omp_nth; tl_omp_tid = 0; tl_omp_nth = T; __atomic_add_fetch(&gate, 1, __ATOMIC_RELAXED); { long spins = 0; while (__atomic_load_n(&gate, __ATOMIC_RELAXED) < T && ++spins < 2000000) { } } fn(data); tl_omp_tid = st; tl_omp_nth = sn;
+        for (int k = 1; k < T; ++k) pthread_join(th[k], 0);
+        return;
+    }
     int saved_tid = tl_omp_tid, saved_n = tl_omp_nth;
     for (int k = 0; k < T; ++k) { int tid = ord == 0 ? k : ord == 1 ? T - 1 - k : (k + ord - 1) % T; tl_omp_tid = tid; tl_omp_nth = T; fn(data); }
     tl_omp_tid = saved_tid; tl_omp_nth = saved_n;
